@@ -96,7 +96,10 @@ def run(ctx):
                 if ev.get("t") == "registry":
                     reg = {it["name"]: it for it in ev["items"]}
             if reg is None:
-                ctx.inconc("no registry listing from %s/%s" % (s, c))
+                if any(v["sig"].get("oracle") == "child-died" and v["sig"].get("schema") == s and v["sig"].get("config") == c for v in ctx.violations):
+                    ctx.note("no registry listing from %s/%s: the harness process died (reported as a violation / known finding)" % (s, c))
+                else:
+                    ctx.inconc("no registry listing from %s/%s" % (s, c))
                 continue
             want_tl2 = codec.CONFIGS[c].get("tl2", "*") == "*"
             for name, exp in expected.items():
